@@ -81,6 +81,9 @@ def main():
             # valid program: determinism of the IR text
             p = progen.Gen(r).program(size=4)
             inputs.append([("m.pn", progen.src_prog(p, progen.Layout(r)))])
+    # bitcasts and conversions in every operand position (diagnostics located at a cast expression)
+    for src in faultgen.cast_programs():
+        inputs.append([("m.pn", src)])
     # dependency graphs of constants and structures with cycles (E413/E415/E416 name other members of the cycle)
     import c11
     first_cycle_input = len(inputs)
